@@ -799,6 +799,11 @@ class VariantPaths(productmd.common.MetadataBase):
     def __repr__(self):
         return u'<%s:variant=%s>' % (self.__class__.__name__, self._variant.uid)
 
+    def _validate_fields(self):
+        for name in self._fields:
+            if not isinstance(getattr(self, name), dict):
+                raise TypeError("%s: Field '%s' must be a dict: %r" % (self.__class__.__name__, name, getattr(self, name)))
+
     def deserialize(self, data):
         paths = data
         for arch in sorted(self._variant.arches):
